@@ -1179,7 +1179,7 @@ def _eval_order(n):
         yield from _eval_order(n.value)
         yield n
         return
-    if isinstance(n, ast.Await):
+    if isinstance(n, (ast.Await, ast.YieldFrom)):
         yield from _eval_order(n.value)
         yield n
         return
@@ -1219,9 +1219,12 @@ def _inline_single_use_temps(fn) -> bool:
     temporary is folded back (`f(x)(...)`).  Splitting a chained call through a temporary is a behaviour-preserving edit; evaluation
     order is unchanged because nothing is evaluated between the two."""
     uses: dict[str, int] = {}
+    loads: dict[str, int] = {}
     for n in own_walk(fn):
         if isinstance(n, ast.Name):
             uses[n.id] = uses.get(n.id, 0) + 1
+            if isinstance(n.ctx, ast.Load):
+                loads[n.id] = loads.get(n.id, 0) + 1
     changed = False
     for par in [fn] + list(own_walk(fn)):
         for fld in ("body", "orelse", "finalbody"):
@@ -1246,7 +1249,10 @@ def _inline_single_use_temps(fn) -> bool:
                                 break
                         # only the "split chained call" shape: the temporary is the callee of a call in the next statement
                         hp = getattr(first_nontrivial, "_parent", None) if first_nontrivial is not None else None
-                        if not (isinstance(hp, ast.Call) and hp.func is first_nontrivial):
+                        # ... or the receiver of a method call (`w = self.wait()` / `yield from w.__await__()`)
+                        recv = isinstance(hp, ast.Attribute) and hp.value is first_nontrivial and isinstance(getattr(hp, "_parent", None), ast.Call) \
+                            and hp._parent.func is hp
+                        if not (isinstance(hp, ast.Call) and hp.func is first_nontrivial) and not recv:
                             first_nontrivial = None
                         if first_nontrivial is not None:
                             holder = getattr(first_nontrivial, "_parent", None)
@@ -1261,7 +1267,10 @@ def _inline_single_use_temps(fn) -> bool:
                 if not ok and isinstance(a, (ast.Assign, ast.AnnAssign)) and getattr(a, "value", None) is not None and isinstance(b, ast.If):
                     tg = a.targets[0] if isinstance(a, ast.Assign) and len(a.targets) == 1 else (a.target if isinstance(a, ast.AnnAssign) else None)
                     v = a.value
-                    if isinstance(tg, ast.Name) and uses.get(tg.id, 0) == 2 and isinstance(v, (ast.BoolOp, ast.Compare, ast.UnaryOp, ast.Call, ast.Attribute)) \
+                    # (used nowhere else: one definition and one test - or the same name reused for several such definition/test pairs)
+                    if isinstance(tg, ast.Name) and (uses.get(tg.id, 0) == 2 or (loads.get(tg.id, 0) * 2 == uses.get(tg.id, 0) and tg.id not in
+                                                                                  {a_.arg for a_ in fn.args.args + fn.args.kwonlyargs})) \
+                            and isinstance(v, (ast.BoolOp, ast.Compare, ast.UnaryOp, ast.Call, ast.Attribute)) \
                             and not any(isinstance(x, (ast.Await, ast.Yield, ast.YieldFrom, ast.NamedExpr, ast.Lambda)) for x in ast.walk(v)):
                         t = b.test
                         if isinstance(t, ast.Name) and t.id == tg.id:
@@ -1467,6 +1476,26 @@ def _canonical_counter_updates(fn) -> bool:
             blk = getattr(par, fld, None)
             if not isinstance(blk, list):
                 continue
+            # `t = E; t.m(...); c = t` (the object is prepared through the local, then stored): the store moves up next to the definition -
+            # nothing in between mentions c, and binding order of a fresh object is unobservable inside one synchronous section
+            for i in range(len(blk) - 2):
+                a = blk[i]
+                if not (isinstance(a, ast.Assign) and len(a.targets) == 1 and isinstance(a.targets[0], ast.Name) and isinstance(a.value, ast.Call)
+                        and isinstance(a.value.func, (ast.Name, ast.Attribute)) and ast.unparse(a.value.func).split(".")[-1][:1].isupper()):
+                    continue        # (only for a freshly constructed object)
+                tn = a.targets[0].id
+                j = i + 1
+                while j < len(blk) and isinstance(blk[j], ast.Expr) and isinstance(blk[j].value, ast.Call) and isinstance(blk[j].value.func, ast.Attribute) \
+                        and isinstance(blk[j].value.func.value, ast.Name) and blk[j].value.func.value.id == tn \
+                        and not any(isinstance(x, (ast.Await, ast.Yield, ast.YieldFrom, ast.Call)) for a_ in blk[j].value.args for x in ast.walk(a_)):
+                    j += 1
+                if j == i + 1 or j >= len(blk):
+                    continue
+                b = blk[j]
+                if isinstance(b, ast.Assign) and len(b.targets) == 1 and isinstance(b.targets[0], ast.Attribute) and _is_plain_target(b.targets[0]) \
+                        and isinstance(b.value, ast.Name) and b.value.id == tn:
+                    blk.insert(i + 1, blk.pop(j))
+                    changed = True
             for i in range(len(blk) - 1):
                 a, b = blk[i], blk[i + 1]
                 if isinstance(a, ast.AnnAssign) and a.value is not None and isinstance(a.target, ast.Name) and a.simple and isinstance(b, ast.Assign) \
@@ -1866,6 +1895,11 @@ def resolve_aliases(repo: Repo):
             for par in ast.walk(f.node):
                 for ch in ast.iter_child_nodes(par):
                     ch._parent = par
+    for f in repo.all_funcs:
+        if _canonical_counter_updates(f.node):          # (`c = t + E` with t an alias of c has become `c = c + E`)
+            for par in ast.walk(f.node):
+                for ch in ast.iter_child_nodes(par):
+                    ch._parent = par
 
 
 def propagate_module_literals(repo: Repo) -> int:
@@ -2189,8 +2223,34 @@ def _forward_field_snapshots(fn) -> bool:
         loops = [x for s_ in after for x in ast.walk(s_) if isinstance(x, (ast.While, ast.For))]
         if not dist:
             continue            # a plain alias: the business of local_aliases
-        first = min(pos(x) for x in dist)
+        def eff_pos(x):
+            # the target of an assignment is stored after its right-hand side was evaluated
+            par_ = getattr(x, "_parent", None)
+            if isinstance(x, ast.Attribute) and isinstance(x.ctx, ast.Store) and isinstance(par_, (ast.Assign, ast.AnnAssign)) and getattr(par_, "value", None) is not None:
+                return (getattr(par_, "end_lineno", 0) or 0, getattr(par_, "end_col_offset", 0) or 0)
+            return pos(x)
+
+        def ancestors(n_):
+            out_ = []
+            while n_ is not None and n_ is not fn:
+                out_.append(n_)
+                n_ = getattr(n_, "_parent", None)
+            return out_
+
+        def exclusive(x, u_):
+            """x and u_ sit in different arms of one `if`: x is on no path to u_"""
+            ax = ancestors(x)
+            au = ancestors(u_)
+            for i_ in [a_ for a_ in ax if isinstance(a_, ast.If) and any(a_ is b_ for b_ in au)]:
+                in_body = lambda n_, arm: any(any(y is n_ for y in ast.walk(s_)) for s_ in arm)
+                if (in_body(x, i_.body) and in_body(u_, i_.orelse)) or (in_body(x, i_.orelse) and in_body(u_, i_.body)):
+                    return True
+            return False
+
         for u_ in uses:
+            rel_ = [x for x in dist if not exclusive(x, u_)
+                    and not (isinstance(x, ast.Call) and isinstance(x.func, ast.Attribute) and x.func.value is u_)]      # (the receiver is read before its call runs)
+            first = min((eff_pos(x) for x in rel_), default=(10 ** 9, 0))
             if pos(u_) >= first:
                 continue
             if any(any(y is u_ for y in ast.walk(lp)) and any(disturbs(y) for y in ast.walk(lp)) for lp in loops):
